@@ -74,6 +74,12 @@ theorem c01_fs_enospc_means_full (v : Model.Fs.Vol) (count : Nat) (hv : Proofs.F
     Proofs.Alloc.avail v.p (Model.Fs.run v s ops).fat v.bound 0 ≤ n :=
   Proofs.FsRun.enospc_means_full (Proofs.FsInv.run_inv hv ops s h) n hno
 
+/-- "out of space" is the only way the model leaves the reference: its I/O-error branches are dead code in
+    every state with the invariant and well-shaped files (hence in every reachable state) -/
+theorem c01_fs_never_io_error (v : Model.Fs.Vol) (count : Nat) (hv : Proofs.FsInv.VolOK v count) (s : Model.Fs.St)
+    (h : Proofs.FsInv.Inv v count s) (hs : Proofs.FsShape.ShapeNodes v.bpc s.nodes) (op : Model.Fs.Op) :
+    (Model.Fs.step v s op).2 ≠ .err .eio := Proofs.FsRun.never_eio hv h hs op
+
 /-- path resolution through the directories (what `get_entry` does) is lookup by path -/
 theorem c01_fs_lookup (nodes : List Model.Fs.Node) (h : Proofs.FsTree.TreeInv nodes) (q : List Nat) (hq : q ≠ []) :
     Model.Fs.resolve nodes q = (nodes.find? (fun n => n.path == q)).map Model.Fs.Loc.node :=
